@@ -48,10 +48,10 @@ CLAIMED = {
     "C17": ("byte comparison of every printable stage output across fresh processes with different environments (harness child processes and the real scc binary), after other compilations in the same process (labels renamed by first occurrence), across every order of stage requests to one driver::Driver, and between the stage commands of scc and scc codegen --print-ir; standard output of the stage commands compared between a pipe, a narrow COLUMNS/LINES environment and a 43-column pseudo terminal",
             "Held on K programs x N fresh processes; evidence reports the number of distinct outputs per stage (must be 1).",
             "Trusted: the OS gives each process a fresh hash seed.", "6/C17"),
-    "C18": ("fault-injection style input fuzzing: token/character mutations, nesting, special programs, valid programs over non-regular / mutually recursive types and their mutations, repository corpus mutations; panics caught in-process (8 MiB stack like the real tool), aborts/timeouts attributed through a current-case file, real scc binary on a sample",
+    "C18": ("fault-injection style input fuzzing: token/character mutations, nesting, special programs, valid programs over non-regular / mutually recursive types and their mutations, valid programs whose identifiers are consistently renamed to extreme names (huge numeric suffixes, leading zeros, underscores only, thousands of characters), repository corpus mutations; panics caught in-process (8 MiB stack like the real tool), aborts/timeouts attributed through a current-case file, real scc binary on a sample",
             "Held on K inputs (valid UTF-8); termination judged as bounded progress (60 s per input).",
             "Trusted: catch_unwind + process-level attribution; later stages judged only for accepted programs with a valid main.", "6/C18"),
-    "C19": ("size monitor on 20 hand-written scalable program families and on randomly composed periodic shapes (12 branching forms x 23 ways of attaching the rest, open and closed mains, main or helper-definition bodies; all 276 single-link shapes, then thousands of random ones), source linear in k: every stage output may grow at most 12x when k doubles (k = 3..16)",
+    "C19": ("size monitor on 20 hand-written scalable program families and on randomly composed periodic shapes (12 branching forms x 25 ways of attaching the rest, open and closed mains, main or helper-definition bodies; all 300 single-link shapes, then thousands of random ones), source linear in k: every stage output may grow at most 12x when k doubles (k = 3..16)",
             "Held on the listed families and the random shapes judged (count in the evidence) up to k = 16; nothing is claimed for other program shapes.",
             "Trusted: printed size / instruction count as the size measure.", "6/C19"),
     "C20": ("clang ASan+UBSan build of io.c driven with boundary and random values; native x86-64 programs for 0..5 parameters x 7 shapes of main's body (conditional, match, call, label, closure between the prints and the result) incl. wrong argument counts; AArch64 entry shuffle on the emulator for 0..7 parameters x the same shapes; print-placement matrix (0..23 live variables x kinds x printed position x boundary values) on the x86-64 and AArch64 emulators vs the AxCut positional machine",
